@@ -88,6 +88,18 @@ def Table.toSampled (t : Table K) : Sampled K := { eval := t.eval, sampleset := 
 /-- a source whose model is a constant without sampling set (`ConstFlux1D` in PHOTLAM) -/
 def constSampled (a : K) : Sampled K := { eval := fun _ => a, sampleset := none }
 
+/-- `SourceSpectrum.model` of a source with redshift `z` (spectrum.py `model` property): for `z = 0`
+the model itself, otherwise `RedshiftScaleFactor(z).inverse | model` (wavelength_only) or
+`… | Scale(1 / (1 + z))` (conserve_flux); the sampling set of `RedshiftScaleFactor.inverse | m` is the
+rest set times `1 + z` (`_model_tree_evaluate_sampleset`).  `1 + z = 0` is a Python
+`ZeroDivisionError` in `RedshiftScaleFactor.inverse`. -/
+def Sampled.redshift (s : Sampled K) (z : K) (conserve : Bool) : Except Err (Sampled K) :=
+  if z = 0 then .ok s
+  else if 1 + z = 0 then .error .zeroDivision
+  else .ok
+    { eval := fun w => if conserve then s.eval (w / (1 + z)) * (1 / (1 + z)) else s.eval (w / (1 + z))
+      sampleset := s.sampleset.map (fun l => l.map (fun x => (1 + z) * x)) }
+
 /-- `ExtinctionModel1D.sampleset()`: "This simply returns `None`" -/
 def extinctionSampleset (_c : Table K) : Option (List K) := none
 
